@@ -861,3 +861,18 @@ def two_pair_specs():
                                                                              {"name": "bob", "skills": {"weld": 3.0}, "fskills": {"robot": 1.0, "crane": 1.0}, "cost": 2.0}]}],
                         "label": "two-pairs:%s:%s" % (frule, order)})
     return out
+
+
+def diamond_ladder_spec(stages=32):
+    """a ladder of reconvergent stages: join_k -> (left_k, right_k) -> join_k+1 ...; 3*stages+1 tasks, all finish-to-start, two fully skilled workers
+    (the number of paths doubles with every stage: anything that walks paths instead of tasks does not come back)"""
+    tasks = [{"name": "J0", "work": 1.0}]
+    links = []
+    for k in range(stages):
+        j = len(tasks) - 1
+        tasks += [{"name": "L%d" % k, "work": 1.0}, {"name": "R%d" % k, "work": 1.0}, {"name": "J%d" % (k + 1), "work": 1.0}]
+        n = len(tasks)
+        links += [[j, n - 3, "FS"], [j, n - 2, "FS"], [n - 3, n - 1, "FS"], [n - 2, n - 1, "FS"]]
+    full = {t["name"]: 1.0 for t in tasks}
+    return {"tasks": tasks, "links": links, "teams": [{"name": "TM0", "targets": list(range(len(tasks))), "workers": [{"name": "W0", "skills": dict(full), "cost": 1.0}, {"name": "W1", "skills": dict(full), "cost": 1.0}]}],
+            "label": "diamond-ladder:%d" % stages}
